@@ -227,6 +227,10 @@ def run_path(pp, solver, tvars, entry, n, decisions, extra_pc=(), nd_shared=None
     r.hooks['Parser::set_state'] = pre_set
     def on_ev(m, fn, args):
         # create_node_* callback fires: the announced node must already head a closed, properly nested subtree
+        if args[1] == 2:      # delete callback: the user has been told that this node is gone
+            its = args[0].get().f[P['cst']].f[CST['data']].f[CD['nodes']].items
+            if 0 <= args[3] < len(its): announced[:] = [(o, rid) for o, rid in announced if o is not its[args[3]]]
+            return
         if args[1] != 1: return
         parser = args[0].get(); node = args[3]
         d = parser.f[P['cst']].f[CST['data']]
@@ -284,6 +288,14 @@ def run_path(pp, solver, tvars, entry, n, decisions, extra_pc=(), nd_shared=None
     res.steps = r.steps
     res.decisions = list(r.decisions); res.forks = r.forks
     res.diags = [(d.f[0].f[0], d.f[0].f[1], d.f[1], int(d.f[2]), d.f[3]) for d in diags.items]
+    if res.status == 'ok' and cst is not None:
+        # every node announced by a create callback and not discarded by backtracking is still that node object in the
+        # returned tree: re-closing an announced node (e.g. as another kind) silently invalidates what the user was told
+        items = cst.f[CST['data']].f[CD['nodes']].items
+        for o, rid in announced:
+            if not any(o is x for x in items):
+                final.append(('announced-node-overwritten', f'a node announced by create_node_{pp.h.rule_names[rid]} was overwritten afterwards without a delete callback (create events: {[(e[1], e[2]) for e in log if e[0] == 1]})'))
+                break
     res.log = log; res.states = states; res.cb = cbinfo; res.final = final
     res.nodes = None; res.walk = None; res.walk_err = None
     if cst is not None:
